@@ -1228,13 +1228,13 @@ Proof.
 Qed.
 
 (* run_events hands branch_of (event index) to the step of that event *)
-Theorem run_events_branch : forall c ue e st ev r,
-  run_events c ue e st (ev :: r) =
-  match proxy_step current_fixes c (Z.of_nat e * ms) (branch_of e) st ev with
+Theorem run_events_branch : forall c ue ws e st ev r,
+  run_events c ue ws e st (ev :: r) =
+  match proxy_step current_fixes c (time_of ws e) (branch_of e) st ev with
   | Ok (st', outs) =>
       Wire.e_list e_output (filter (visible ue) outs)
       ++ Wire.e_list (fun n => [Wire.e_nat n]) (newly_closed (st_conns st) (st_conns st'))
-      ++ run_events c ue (S e) st' r
+      ++ run_events c ue ws (S e) st' r
   | Err => [s2b "err"]
   | Panic => [s2b "panic"]
   end.
